@@ -34,6 +34,8 @@ pub fn value_to_docval(v: &Value<'_>) -> DocVal {
                     .collect(),
             ))
         }
+        #[allow(unreachable_patterns)]
+        _ => DocVal::Null,
     }
 }
 
@@ -63,6 +65,26 @@ fn same(a: &DocVal, b: &DocVal) -> bool {
 /// kind c10.find: docs[0] is the document, texts are the keys to look up.
 /// Every representation's find() must equal the independent resolver for well-formed paths and
 /// must not panic for any key.
+/// A key with an indexed segment whose bracket content cannot be read as an index (`a[]`,
+/// `a[last]`, `a[1x]`, `a[-1]`, an index beyond usize) addresses nothing: the lookup must be
+/// missing, never the whole value of `a` or another element.
+fn must_be_missing(key: &str) -> bool {
+    key.split('.').any(|seg| {
+        if let (Some(open), true) = (seg.find('['), seg.ends_with(']')) {
+            let name = &seg[..open];
+            let content = &seg[open + 1..seg.len() - 1];
+            if name.is_empty() || name.contains(']') || content.contains('[') || content.contains(']') {
+                return false;
+            }
+            let digits = content.strip_prefix('+').unwrap_or(content);
+            let plain_index = !digits.is_empty() && digits.bytes().all(|b| b.is_ascii_digit());
+            !plain_index || digits.trim_start_matches('0').len() > 19
+        } else {
+            false
+        }
+    })
+}
+
 fn judge_find(case: &Case) -> Outcome {
     let doc = &case.docs[0];
     let norm = doc.normalised();
@@ -96,6 +118,15 @@ fn judge_find(case: &Case) -> Outcome {
                 Err(p) => return Outcome::Violation(format!("find({key:?}) on {name} panicked: {p}")),
             };
             let exp = if normalised { &expected_norm } else { &expected };
+            if exp.is_err() && must_be_missing(key) {
+                if let Some(g) = &got {
+                    return Outcome::Violation(format!(
+                        "find({key:?}) on {name} of {} returned {} although the index cannot be read: the field must be missing",
+                        doc.show(),
+                        g.show()
+                    ));
+                }
+            }
             if let Ok(exp) = exp {
                 let ok = match (exp, &got) {
                     (None, None) => true,
@@ -304,7 +335,8 @@ fn odd_keys() -> Vec<String> {
         "", ".", "..", "a.", ".a", "a..b", "a[", "a]", "[", "]", "[]", "a[]", "a[+1]", "a[-1]", "a[ 1]", "a[1 ]",
         "a[18446744073709551616]", "a[18446744073709551615]", "a[0][1]", "a[0]x", "a[[0]]", "[0]", "a.[0]",
         "a[0].", "a[0]..b", "é", "a.é", "é[0]", "a[٣]", "a[0x1]", "a[1e0]", "a.b.c.d.e.f.g.h", "a[00]", "a[01]",
-        "a b", " a", "a ", "a\u{0}", "\u{0}", "\u{1}",
+        "a b", " a", "a ", "a\u{0}", "\u{0}", "\u{1}", "a[last]", "a[1x]", "a[x]", "b[]", "b[last]", "b[0x0]", "a.b[]",
+        "a.b[x]", "b[99999999999999999999999]", "a[*]", "a[0,1]", "a[0:1]", "b[-0]",
     ]
     .iter()
     .map(|s| s.to_string())
